@@ -24,7 +24,7 @@ def main():
             mm = re.match(r"\s*end\s+([\w.]+)\s*$", line)
             if mm and ns and ns[-1] == mm.group(1):
                 ns.pop()
-            mm = re.match(r"\s*(?:@\[[^\]]*\]\s*)?(?:protected\s+|private\s+)?theorem\s+([\w.']+)", line)
+            mm = re.match(r"\s*(?:@\[[^\]]*\]\s*)?(?:protected\s+|private\s+)?theorem\s+([\w.'?!]+)", line)
             if mm:
                 names.append(".".join(ns + [mm.group(1)]))
         e = ob.setdefault(pid, dict(modules=[], theorems=[], imports=[]))
